@@ -169,6 +169,16 @@ MUTANTS = [
      "    if problem.has_name(new_name):\n        new_name = f\"{base_name}_{str(count)}\"\n        count += 1\n    return new_name", "get_fresh_name"),
     ("C08", "unified_planning/engines/compilers/utils.py",
      "    for p in action.parameters:\n        name_list.append(p.name)\n    count = 0", "    for p in action.parameters[1:]:\n        name_list.append(p.name)\n    count = 0", "get_fresh_parameter_name"),
+    ("C36", "unified_planning/model/state.py",
+     "                for k, v in current_instance._values.items():\n                    complete_values.setdefault(k, v)\n                current_instance = current_instance._father\n            return UPState(",
+     "                for k, v in current_instance._values.items():\n                    complete_values[k] = v\n                current_instance = current_instance._father\n            return UPState(", "make_child"),
+    ("C36", "unified_planning/model/state.py",
+     "                {k: v for k, v in complete_values.items() if self._is_nondefault(k, v)},\n                self._fluent_set,\n            )\n        # Otherwise",
+     "                {k: v for k, v in complete_values.items()},\n                self._fluent_set,\n            )\n        # Otherwise", "make_child"),
+    ("C36", "unified_planning/model/state.py",
+     "        return UPState(updated_values, self._fluent_set, self)", "        return UPState(updated_values, self._fluent_set, self._father)", "any positive"),
+    ("C36", "unified_planning/model/state.py",
+     "            if _father is not None or self._is_nondefault(fluent, value):", "            if self._is_nondefault(fluent, value):", "any positive"),
     ("C11", "unified_planning/model/walkers/simplifier.py",
      "            return self.manager.Bool(not l)", "            return self.manager.Bool(l)", "walk_not"),
 ]
